@@ -89,10 +89,31 @@ pub fn run() -> i32 {
     };
     let mut mismatches = Vec::new();
     let mut same = 0;
+    // A conversation that differs is replayed again, alone and with a five times longer wait
+    // for the server to become quiet (the real-socket runner has no true quiescence: on a loaded
+    // machine 80 ms may be too short).  A genuine disagreement persists.
+    let mut retried_ok = 0;
+    let retry_one = |i: usize| -> Option<Value> {
+        let f = dir.join("target").join(format!("conformance-retry-{}.json", i));
+        std::fs::write(&f, serde_json::to_string(&vec![mem[i].clone()]).ok()?).ok()?;
+        for wait in ["400", "1500"] {
+            let out = std::process::Command::new(&exe).arg(&f).env("VERIF_SETTLE_MS", wait).env("VERIF_SCENARIOS_ONLY", "1").output().ok()?;
+            let v: Value = serde_json::from_slice(&out.stdout).ok()?;
+            if v["scenarios"][0]["canon"] == mem[i]["canon"] {
+                let _ = std::fs::remove_file(&f);
+                return Some(v["scenarios"][0].clone());
+            }
+        }
+        let _ = std::fs::remove_file(&f);
+        None
+    };
     for (i, m) in mem.iter().enumerate() {
         let r = &real["scenarios"][i];
         if r["canon"] == m["canon"] {
             same += 1;
+        } else if retry_one(i).is_some() {
+            same += 1;
+            retried_ok += 1;
         } else {
             mismatches.push(json!({"name": m["name"], "in_memory": m["canon"], "kernel_sockets": r["canon"]}));
         }
@@ -158,7 +179,7 @@ pub fn run() -> i32 {
     chk(ro["burst32_answered"].as_u64() == Some(32), "32 simultaneous connections all answered", &mut real_fail);
     let th = &ro["threads_base_withserver_during_after6s"];
     chk(th[3].as_u64().unwrap_or(999) <= th[1].as_u64().unwrap_or(0), "threads back to (at most) the baseline 6.5 s after a burst of 32", &mut real_fail);
-    let report = json!({"scenarios_compared": mem.len(), "identical": same, "mismatches": mismatches, "real_only": ro, "real_only_failures": real_fail});
+    let report = json!({"scenarios_compared": mem.len(), "identical": same, "identical_only_after_a_replay_with_longer_waits": retried_ok, "mismatches": mismatches, "real_only": ro, "real_only_failures": real_fail});
     let _ = std::fs::create_dir_all(dir.join("evidence"));
     std::fs::write(dir.join("evidence").join("conformance.json"), serde_json::to_string_pretty(&report).unwrap()).expect("write");
     println!("conformance: {} conversations replayed over kernel sockets, {} identical to the in-memory network, {} mismatches, {} real-only clause failures", mem.len(), same, report["mismatches"].as_array().unwrap().len(), report["real_only_failures"].as_array().unwrap().len());
